@@ -388,3 +388,143 @@ Proof.
   pose proof (forceful_tr_closes t e w1 ls1 Hf1) as H.
   destruct (forceful (tr_aclose t) e w1 ls1) as [[r w2] ls2]. destruct H as [H _]. destruct r; exact H.
 Qed.
+
+(* ------------------------------------------------------------------ the teardown after ANY handler of our kind.
+   tinv: once the TLS layer says "closing", its leaves are closed -- true between complete operations, because
+   tls_aclose reaches the leaves on every exit once it has set the flag. *)
+Definition tinv (t : tr) (w : world) : Prop :=
+  match t with
+  | TPlain _ => True
+  | TTls _ b => w_tls_closing w = true -> forall i, In i (leaves b) -> w_leaf w i = true
+  end.
+
+Definition keeps_t (t : tr) (p : M) : Prop :=
+  forall e w ls, tinv t w -> let '(r, w', ls') := p e w ls in tinv t w' /\ le w w' /\ same_locks w w'.
+
+Lemma point_tls e w ls : let '(r, w', ls') := point e w ls in w_tls_closing w' = w_tls_closing w.
+Proof. unfold point. destruct (e_forced e); auto. destruct ls as [|[] ?]; try destruct (e_timed e); reflexivity. Qed.
+
+Lemma tinv_le t w w' : tinv t w -> le w w' -> w_tls_closing w' = w_tls_closing w -> tinv t w'.
+Proof. destruct t; simpl; auto. intros H Hle E Hc i Hi. apply Hle. apply H; [congruence | exact Hi]. Qed.
+
+Lemma tr_aclose_tinv t : keeps_t t (tr_aclose t).
+Proof.
+  intros e w ls Hi. destruct t as [b | c b]; simpl.
+  - pose proof (base_aclose_closes b e w ls) as H. destruct (base_aclose b e w ls) as [[r w'] ls']. tauto.
+  - destruct (w_tls_closing w) eqn:Hc.
+    + unfold tls_aclose. rewrite Hc. destruct (w_tls_closed w).
+      * split; [exact Hi | split; [apply le_refl | split; reflexivity]].
+      * pose proof (point_keeps e w ls) as Hk. pose proof (point_tls e w ls) as Ht.
+        destruct (point e w ls) as [[r w'] ls']. destruct Hk as [Hle Hl].
+        split; [eapply (tinv_le (TTls c b)); eauto | split; assumption].
+    + pose proof (tls_aclose_closes c b e w ls Hc) as H. destruct (tls_aclose c b e w ls) as [[r w'] ls'].
+      destruct H as [H1 [H2 [H3 _]]]. split; [intros _; exact H1 | split; assumption].
+Qed.
+
+Lemma forceful_tinv t p : keeps_t t p -> keeps_t t (forceful p).
+Proof.
+  intros H e w ls Hi. unfold forceful.
+  pose proof (H {| e_forced := true; e_timed := e_timed e |} w ls Hi) as Hp.
+  destruct (p _ w ls) as [[r w1] ls1]. destruct r; exact Hp.
+Qed.
+
+Lemma guarded_tinv t : keeps_t t (guarded_aclose t).
+Proof.
+  intros e w ls Hi. unfold guarded_aclose. destruct (w_guard w).
+  - split; [exact Hi | split; [apply le_refl | split; reflexivity]].
+  - apply tr_aclose_tinv. exact Hi.
+Qed.
+
+Lemma tinv_api t w : tinv t (set_api_closing w) <-> tinv t w.
+Proof. destruct t; simpl; tauto. Qed.
+Lemma tinv_release t w : tinv t (release_sender w) <-> tinv t w.
+Proof. destruct t; simpl; tauto. Qed.
+
+Lemma lock_point_tinv t e w ls : tinv t w ->
+  let '(r, w', ls') := lock_point e w ls in tinv t w' /\ le w w'.
+Proof.
+  intro Hi. unfold lock_point.
+  assert (G : forall ls0, let '(r, w', ls') := point e w ls0 in tinv t w' /\ le w w').
+  { intro ls0. pose proof (point_keeps e w ls0) as Hk. pose proof (point_tls e w ls0) as Ht.
+    destruct (point e w ls0) as [[r w'] ls']. destruct Hk as [Hle _]. split; [eapply tinv_le; eauto | exact Hle]. }
+  destruct ls as [|[] l]; apply G.
+Qed.
+
+(* _ConnectedClientAPI.aclose keeps tinv and never lowers a leaf flag, whoever holds lock and guard *)
+Lemma api_aclose_tinv t e w ls : tinv t w ->
+  let '(r, w', ls') := api_aclose t e w ls in tinv t w' /\ le w w'.
+Proof.
+  intro Hi. unfold api_aclose.
+  assert (Hbody : forall e0 w0 ls0, tinv t w0 ->
+            let '(r, w', ls') := guarded_aclose t e0 (set_api_closing w0) ls0 in tinv t w' /\ le w0 w').
+  { intros e0 w0 ls0 H0. pose proof (guarded_tinv t e0 (set_api_closing w0) ls0 (proj2 (tinv_api t w0) H0)) as H.
+    destruct (guarded_aclose t e0 (set_api_closing w0) ls0) as [[r w'] ls']. destruct H as [A [B _]].
+    split; [exact A | intros i Hl; apply B; exact Hl]. }
+  assert (Hlock : let '(x, w1, ls1) := with_lock (fun e' w' ls' => guarded_aclose t e' (set_api_closing w') ls') e w ls in
+                  tinv t w1 /\ le w w1).
+  { unfold with_lock. destruct (w_lock w).
+    - pose proof (lock_point_tinv t e w ls Hi) as Hp. destruct (lock_point e w ls) as [[r0 w0] ls0].
+      destruct Hp as [Hi0 Hle0].
+      destruct r0; try (split; assumption).
+      pose proof (Hbody e (release_sender w0) ls0 (proj2 (tinv_release t w0) Hi0)) as Hb.
+      destruct (guarded_aclose t e (set_api_closing (release_sender w0)) ls0) as [[r w'] ls'].
+      destruct Hb as [A B]. split; [exact A | eapply le_trans; [exact Hle0 | intros i Hl; apply B; exact Hl]].
+    - apply Hbody. exact Hi. }
+  destruct (with_lock _ e w ls) as [[x w1] ls1]. destruct Hlock as [Hi1 Hle1].
+  assert (Hf : forall p, keeps_t t p ->
+            let '(r2, w2, ls2) := forceful p e (set_api_closing w1) ls1 in tinv t w2 /\ le w w2).
+  { intros p Kp. pose proof (forceful_tinv t p Kp e (set_api_closing w1) ls1 (proj2 (tinv_api t w1) Hi1)) as H.
+    destruct (forceful p e (set_api_closing w1) ls1) as [[r2 w2] ls2]. destruct H as [A [B _]].
+    split; [exact A | eapply le_trans; [exact Hle1 | intros i Hl; apply B; exact Hl]]. }
+  destruct x; try (split; assumption);
+    (destruct api_fallback_bypasses_guard;
+     [ specialize (Hf _ (tr_aclose_tinv t)); destruct (forceful (tr_aclose t) e (set_api_closing w1) ls1) as [[r2 w2] ls2]
+     | specialize (Hf _ (guarded_tinv t)); destruct (forceful (guarded_aclose t) e (set_api_closing w1) ls1) as [[r2 w2] ls2] ];
+     destruct r2; exact Hf).
+Qed.
+
+(* the exit stack closes every leaf after any handler that keeps tinv (every program of this file does) *)
+Lemma task_exit_closes_tinv t handler e w ls :
+  (forall e w ls, tinv t w -> let '(r, w', ls') := handler e w ls in tinv t w' /\ le w w') -> tinv t w ->
+  let '(r, w', ls') := client_task_exit handler t e w ls in forall i, In i (leaves (tr_base t)) -> w_leaf w' i = true.
+Proof.
+  intros Hh Hi. unfold client_task_exit. specialize (Hh e w ls Hi). destruct (handler e w ls) as [[x w1] ls1].
+  destruct Hh as [Hi1 _].
+  assert (G : let '(r, w2, ls2) := forceful (tr_aclose t) e w1 ls1 in
+              forall i, In i (leaves (tr_base t)) -> w_leaf w2 i = true).
+  { destruct t as [b | c b].
+    - pose proof (forceful_tr_closes (TPlain b) e w1 ls1 Logic.I) as H.
+      destruct (forceful (tr_aclose (TPlain b)) e w1 ls1) as [[r w2] ls2]. apply H.
+    - destruct (w_tls_closing w1) eqn:Hc.
+      + pose proof (forceful_keeps _ (tr_aclose_keeps (TTls c b)) e w1 ls1) as K.
+        destruct (forceful (tr_aclose (TTls c b)) e w1 ls1) as [[r w2] ls2]. destruct K as [K _].
+        intros i Hl. apply K. apply Hi1; [exact Hc | exact Hl].
+      + pose proof (forceful_tr_closes (TTls c b) e w1 ls1 Hc) as H.
+        destruct (forceful (tr_aclose (TTls c b)) e w1 ls1) as [[r w2] ls2]. apply H. }
+  destruct (forceful (tr_aclose t) e w1 ls1) as [[r w2] ls2]. destruct r; exact G.
+Qed.
+
+Lemma world0_tinv t lock : tinv t (world0 lock).
+Proof. destruct t; simpl; auto; discriminate. Qed.
+
+(* both teardown paths, lock free or held *)
+Lemma teardown_closes t inner lock ls :
+  let '(r, w', ls') := run_path (PTaskExit t inner) env0 (world0 lock) ls in
+  forall i, In i (leaves (tr_base t)) -> w_leaf w' i = true.
+Proof.
+  simpl run_path. apply task_exit_closes_tinv; [| apply world0_tinv].
+  destruct inner.
+  - intros e w ls0. apply api_aclose_tinv.
+  - intros e w ls0 H. split; [exact H | apply le_refl].
+Qed.
+
+Lemma paths_close_all : forall p ls,
+  let '(r, w', ls') := run_path p env0 (world0 false) ls in
+  (match p with PWrap _ _ => r <> ROk | _ => True end) ->
+  forall i, In i (leaves (tr_base (path_tr p))) -> w_leaf w' i = true.
+Proof.
+  intros p ls. destruct p as [t | t | c b | t | t | t | t inner];
+    try (match goal with |- context [run_path ?q _ _ _] => exact (paths_close q ls Logic.I) end).
+  pose proof (teardown_closes t inner false ls) as H.
+  destruct (run_path (PTaskExit t inner) env0 (world0 false) ls) as [[r w'] ls']. intros _. exact H.
+Qed.
